@@ -226,6 +226,11 @@ class Signature:
                 )
             )
 
+        # Keyword-only parameters have no order: `*, k, j` is `*, j, k`
+        typelist = [t for t in typelist if not isinstance(t, tuple)] + sorted(
+            (t for t in typelist if isinstance(t, tuple)), key=lambda t: t[0]
+        )
+
         return cls(
             types=tuple(typelist),
             return_type=normalize_type(sig.return_annotation, fn),
